@@ -91,11 +91,13 @@ class C05(Prop):
             # who holds what: a bridge started by a helper that keeps neither the bridge nor the consumer object around
             descs = [gen.broadcast_desc(r, m, i * 9 + n, f"{0xC00000 + (i * 9 + n) % 0xFFFF:06x}") for n, m in enumerate(gen.MODELS)]
             keep = bool(env.sig("own-keep", i) % 2)
-            got, sent_raw = await udp.unowned_bridge_probe(self.rig, descs, keep_bridge=keep)
+            got, verdict = await udp.unowned_bridge_probe(self.rig, descs, keep_bridge=keep)
             acc.ev(len(descs))
             acc.count("broadcasts_to_a_bridge_nobody_holds" if not keep else "broadcasts_to_a_bridge_whose_consumer_nobody_holds", len(descs))
             how = "the bridge object and the callback's owner" if not keep else "the callback's owner"
-            if len(got) != len(descs):
+            if len(got) != len(descs) and verdict == "unknown":
+                acc.inconclusive_because("unreferenced-bridge probe: datagrams dropped or still queued by the kernel")
+            elif len(got) != len(descs):
                 acc.violation("delivery-count-wrong:unreferenced-" + ("bridge" if not keep else "consumer"), f"{len(descs)} well-formed broadcasts sent to a started bridge "
                               f"({how} are referenced by nobody else, garbage was collected): {len(got)} devices delivered", {"kept_bridge": keep})
             else:
